@@ -13,6 +13,9 @@ def run(run):
     nr = machine.check_random(run, FAMILY, 1500 if quick else 20000, "MachineRand: seeded random programs")
     run.cov["random_programs"] = nr
     n += nr
+    nb = block_traces(run, quick)
+    run.cov["block_trace_programs"] = nb
+    n += nb
     run.cov["traces_validated_against_impl"] = n
     run.cov["evaluations"] = n
     run.cov["distinct_nontrivial"] = n
@@ -21,4 +24,96 @@ def run(run):
     run.assumptions += machine.ASSUMPTIONS
 
 
-replay = machine.replay
+def repo_test_programs():
+    """the checkerlang programs of the repository's own tests (string literals handed to the test helpers)"""
+    import ast
+    import os
+    from .common import REPO
+    out = []
+    for fname in ("test_infotests.py", "test_interpreter.py"):
+        path = os.path.join(REPO, "tests", fname)
+        try:
+            tree = ast.parse(open(path).read())
+        except (OSError, SyntaxError):
+            continue
+        for node in ast.walk(tree):
+            if isinstance(node, ast.Call) and node.args and isinstance(node.args[0], ast.Constant) \
+                    and isinstance(node.args[0].value, str):
+                out.append(node.args[0].value)
+    return sorted(set(out))
+
+
+def block_traces(run, quick):
+    """binding B: the life cycle of every block the real evaluator runs (generated programs, the
+    repository's own test programs, the library code they call) validated by Block_Trace.tla"""
+    import random
+    import signal
+    from . import blocktrace as bt
+    rng = random.Random(run.seed + 5)
+    gen = sorted(set(machine.SOURCES))
+    gen = rng.sample(gen, min(len(gen), 2500 if quick else 20000))
+    progs = [(machine.PRELUDE + g, True) for g in gen] + [(t, False) for t in repo_test_programs()]
+    bt.install()
+    try:
+        from ckl.interpreter import Interpreter
+        from ckl.values import StringOutput
+        sec = Interpreter(True, False)
+        leg = Interpreter(False, True)
+        for it_ in (sec, leg):
+            it_.setStandardOutput(StringOutput())        # the test programs print
+        bt.ENABLED[0] = True
+        bt.EVENTS.clear()
+        metas = []
+
+        def _alarm(signum, frame):
+            raise TimeoutError()
+        signal.signal(signal.SIGALRM, _alarm)
+        for text, generated in progs:
+            it = sec if generated else leg
+            it.environment = it.base_environment.newEnv()
+            bt.EVENTS.append({"e": "new"})
+            signal.alarm(20)
+            try:
+                it.interpret(text, "blk")
+            except BaseException:  # noqa: BLE001 - outcomes are judged by C05's binding A / C13; here only the events count
+                pass
+            finally:
+                signal.alarm(0)
+            metas += [text] * (len(bt.EVENTS) - len(metas))
+        bt.EVENTS.append({"e": "new"})
+        metas.append("<end>")
+        bt.ENABLED[0] = False
+        events = list(bt.EVENTS)
+    finally:
+        bt.ENABLED[0] = False
+        bt.uninstall()
+    run.cov["block_trace_events"] = len(events)
+    run.cov["block_instances"] = sum(1 for e in events if e["e"] == "enter")
+    run.sample({"block_trace": events[1:12], "of": metas[1][:200]})
+    bt.validate(run, events, metas, "Block_Trace: life cycle of every block instance run by the real evaluator")
+    return len(progs)
+
+
+def replay(run, case):
+    if case.get("kind") == "blocktrace":
+        from . import blocktrace as bt
+        bt.install()
+        try:
+            from ckl.interpreter import Interpreter
+            it = Interpreter(False, True)
+            bt.ENABLED[0] = True
+            bt.EVENTS.clear()
+            bt.EVENTS.append({"e": "new"})
+            try:
+                it.interpret(case["src"], "blk")
+            except BaseException:  # noqa: BLE001
+                pass
+            bt.EVENTS.append({"e": "new"})
+            bt.ENABLED[0] = False
+            ev = list(bt.EVENTS)
+        finally:
+            bt.ENABLED[0] = False
+            bt.uninstall()
+        bt.validate(run, ev, [case["src"]] * len(ev), "replay")
+    else:
+        machine.replay(run, case)
